@@ -396,6 +396,30 @@ fn arith(args: &[String]) {
     writeln!(out, "{}", json!({"shard_done": shard})).unwrap();
 }
 
+/// sqlc --in <json line file> --out <ndjson> [--shard i --of n]: C12
+fn sqlc(args: &[String]) {
+    let input = arg(args, "--in").expect("--in");
+    let output = arg(args, "--out").expect("--out");
+    let shard: usize = arg(args, "--shard").map(|s| s.parse().unwrap()).unwrap_or(0);
+    let of: usize = arg(args, "--of").map(|s| s.parse().unwrap()).unwrap_or(1);
+    let mut out = std::fs::OpenOptions::new().create(true).append(true).open(&output).expect("open output");
+    let mut item = 0;
+    for line in std::io::BufReader::new(std::fs::File::open(&input).expect("open input")).lines() {
+        let v: Value = serde_json::from_str(&line.unwrap()).expect("json");
+        let kind = v["kind"].as_str().unwrap().to_string();
+        for state in 0..2 {
+            writeln!(out, "{}", json!({"idx": item, "begin": true})).unwrap();
+            out.flush().unwrap();
+            let mut r = lvh::sqlc::run(&kind, v["stmts"].as_array().unwrap(), state, shard, of, true);
+            r["idx"] = json!(item);
+            writeln!(out, "{}", r).unwrap();
+            out.flush().unwrap();
+            item += 1;
+        }
+    }
+    writeln!(out, "{}", json!({"shard_done": shard})).unwrap();
+}
+
 fn main() {
     lvh::util::quiet_panics();
     let args: Vec<String> = std::env::args().collect();
@@ -409,6 +433,7 @@ fn main() {
         Some("qsem") => qsem(&args[2..]),
         Some("c01") => c01(&args[2..]),
         Some("arith") => arith(&args[2..]),
+        Some("sqlc") => sqlc(&args[2..]),
         Some("record-stress") => record_stress(&args[2..]),
         _ => {
             eprintln!("usage: lvh <replay-hist> ...");
